@@ -1,6 +1,6 @@
 (* C02: generated deserializers decode every byte string as the specification prescribes.
    Statements only; proofs in Spec/WireThm*.v, Codec/Refine.v and Codec/RefineDes*.v. *)
-From Verif Require Import Wire WireThm WireThmRt WireThmExt WireThmValid Walker Refine RefineDesBase PrimsOn RefineDes WalkerBound InstancesC InstancesCpp InstancesPy InstancesTyped BulkArrays BulkArraysDes WireThmErr WalkerOpt WalkerOptThm InstancesOpt CppWalker CppWalkerThm CppWalkerInst PyDesWalker PyDesWalkerThm PyDesWalkerInst WalkerXDes RefineDesX WalkerXBound InstancesXDes CppWalkerConsumed InstancesCW AlignSets.
+From Verif Require Import Wire WireThm WireThmRt WireThmExt WireThmValid Walker Refine RefineDesBase PrimsOn RefineDes WalkerBound InstancesC InstancesCpp InstancesPy InstancesTyped BulkArrays BulkArraysDes WireThmErr WalkerOpt WalkerOptThm InstancesOpt CppWalker CppWalkerThm CppWalkerInst PyDesWalker PyDesWalkerThm PyDesWalkerInst WalkerXDes RefineDesX WalkerXBound InstancesXDes CppWalkerConsumed InstancesCW AlignSets WidthArith.
 Local Open Scope nat_scope.
 
 (* the reported number of consumed bytes never exceeds the number supplied *)
@@ -269,8 +269,30 @@ Theorem c02_cpp_shaped_consumed_exact : forall Q (Wd : nat -> Prop) t bits v k,
 Proof. exact cpp_walk_des_consumed_exact. Qed.
 Print Assumptions c02_cpp_shaped_consumed_exact.
 
-(* AUDIT 2 (size_t width): the C deserializer instance for EVERY width M >= 2^16 of size_t (Codec/InstancesCW.v over Prims/CPrimsW.v),
-   in particular 32 bits; `c_prims` is M = 2^64 *)
+(* AUDIT 2/3 (size_t width): PRIMITIVE CALLS of the C deserializer at every width M >= 2^16 of size_t (Codec/InstancesCW.v over
+   Prims/CPrimsW.v).  The walker's own arithmetic is in nat; Codec/WidthArith.v supplies what the side condition buys at routine level:
+   every cursor stays <= max(cap, start) + tsz t (no `offset_bits +=` wraps when |bits| + tsz t < 2^W), and the C delimiter-header check
+   compares BYTES (no product of an unvalidated header).  The C++ template multiplies first: the check stated with the product wrapped
+   at the width of std::size_t equals the model's at W = 64 and is REFUTED at W = 32 (defect D1) - every C++ theorem is 64-bit only. *)
+Theorem c02_c_cursor_bounded : forall P t buf cap off v o, wd_body P t buf cap off = Ok (v, o) -> o <= Nat.max cap off + tsz t.
+Proof. exact c_cursor_bounded. Qed.
+Print Assumptions c02_c_cursor_bounded.
+
+Theorem c02_cpp_hdr_check_64_ok : forall remaining header, (header < 2 ^ 32)%N ->
+  cpp_hdr_check_W (2 ^ 64) remaining header = cpp_hdr_check_nat remaining header.
+Proof. exact cpp_hdr_check_64_ok. Qed.
+Print Assumptions c02_cpp_hdr_check_64_ok.
+
+Theorem c02_cpp_hdr_check_32_refuted : exists remaining header, (header < 2 ^ 32)%N /\
+  cpp_hdr_check_nat remaining header = true /\ cpp_hdr_check_W (2 ^ 32) remaining header = false.
+Proof. exact cpp_hdr_check_32_refuted. Qed.
+Print Assumptions c02_cpp_hdr_check_32_refuted.
+
+Theorem c02_cpp_hdr_check_bytes_ok : forall remaining header, (remaining mod 8 = 0)%N ->
+  cpp_hdr_check_bytes remaining header = cpp_hdr_check_nat remaining header.
+Proof. exact cpp_hdr_check_bytes_ok. Qed.
+Print Assumptions c02_cpp_hdr_check_bytes_ok.
+
 Theorem c02_c_walk_des_refines_W : forall M, (65536 <= M)%N -> forall (little : bool) t bits, wf_ty t = true ->
   length bits mod 8 = 0 -> (N.of_nat (length bits + tsz t) < M)%N ->
   walk_des (c_primsW M little) t bits = des_spec t bits.
